@@ -157,7 +157,7 @@ func (h *Hist) newScanCtx() *ScanCtx {
 	if h.C != nil {
 		ctx.Pre = h.C.VerifDumpState()
 	}
-	ctx.Fresh = h.W.Scan == 0 || h.freshController()
+	ctx.Fresh = h.freshController()
 	for i := range h.S.Groups {
 		spec := &h.S.Groups[i]
 		g := &GroupView{Spec: spec, Name: spec.Opts.Name, PodsOn: map[string]int{}, ASGName: spec.Opts.CloudProviderGroupName}
